@@ -33,9 +33,10 @@ Definition target (c : call) (m : machine) : bool * bool * bool * bool :=
   | _ => ctl m
   end.
 
-(** whatever the outcome *)
+(** whatever the outcome; when the activation ran out of fuel (an artefact of the model, not a
+    behaviour of the crate) only [log_ok] is kept *)
 Definition Post (K : conf) (c : call) (m m' : machine) (r : outcome) : Prop :=
-  inv K (target c m) m'.
+  res (flagsA K) (target c m) (m', r).
 
 Ltac tqs :=
   first [ assumption | apply tq_drop | apply tq_idle | (apply tq_fin; assumption)
@@ -43,20 +44,24 @@ Ltac tqs :=
 
 Ltac fix_flags :=
   repeat match goal with
-         | H : inv _ (_, _, _, _) ?m' |- context [st_collecting ?m'] => rewrite (inv_c _ _ _ _ _ _ H)
-         | H : inv _ (_, _, _, _) ?m' |- context [st_finalizing ?m'] => rewrite (inv_f _ _ _ _ _ _ H)
-         | H : inv _ (_, _, _, _) ?m' |- context [st_dropping ?m'] => rewrite (inv_d _ _ _ _ _ _ H)
-         | H : inv _ (_, _, _, _) ?m' |- context [panicking ?m'] => rewrite (inv_p _ _ _ _ _ _ H)
+         | H : inv _ (_, _, _, _) ?m' |- context [st_collecting ?m'] =>
+           progress rewrite (inv_c _ _ _ _ _ _ H)
+         | H : inv _ (_, _, _, _) ?m' |- context [st_finalizing ?m'] =>
+           progress rewrite (inv_f _ _ _ _ _ _ H)
+         | H : inv _ (_, _, _, _) ?m' |- context [st_dropping ?m'] =>
+           progress rewrite (inv_d _ _ _ _ _ _ H)
+         | H : inv _ (_, _, _, _) ?m' |- context [panicking ?m'] =>
+           progress rewrite (inv_p _ _ _ _ _ _ H)
          end.
 
 (** setting a flag back to a saved value *)
-Lemma inv_set_c' K c c0 f d p b m :
+Lemma inv_set_c' (K : lpred) c c0 f d p b m :
   inv K (c0, f, d, p) m -> b = c -> inv K (c, f, d, p) (m <| st_collecting := b |>).
 Proof. intros H ->. eapply inv_set_c, H. Qed.
-Lemma inv_set_f' K c f f0 d p b m :
+Lemma inv_set_f' (K : lpred) c f f0 d p b m :
   inv K (c, f0, d, p) m -> b = f -> inv K (c, f, d, p) (m <| st_finalizing := b |>).
 Proof. intros H ->. eapply inv_set_f, H. Qed.
-Lemma inv_set_d' K c f d d0 p b m :
+Lemma inv_set_d' (K : lpred) c f d d0 p b m :
   inv K (c, f, d0, p) m -> b = d -> inv K (c, f, d, p) (m <| st_dropping := b |>).
 Proof. intros H ->. eapply inv_set_d, H. Qed.
 
@@ -68,8 +73,10 @@ Proof. intros H ->. eapply inv_set_d, H. Qed.
   (eapply inv_set_d'; [ | first [reflexivity | eapply inv_d]]) : fl.
 #[export] Hint Extern 1 (tq _ _) => tqs : fl.
 #[export] Hint Extern 2 (inv _ _ (fold_left _ _ _)) => (apply inv_fold; [intros | ]) : fl.
-#[export] Hint Extern 2 (inv _ _ (fst (unwinding _ _))) =>
-  (apply inv_unwinding; [intros | ]) : fl.
+#[export] Hint Extern 2 (res _ _ (unwinding _ _)) => (apply res_unwinding; [intros | ]) : fl.
+#[export] Hint Extern 2 (res _ _ (ok _ _)) => (unfold ok) : fl.
+#[export] Hint Extern 3 (res _ _ (_, _)) => (apply res_intro) : fl.
+#[export] Hint Extern 4 (res _ _ (_, OFuel)) => (eapply res_intro_fuel) : fl.
 
 (** the innermost [match] scrutinee of the goal *)
 Ltac inner_scrut k :=
@@ -98,11 +105,20 @@ Ltac flag_read :=
 
 (** one step in program order: a call returning a machine is replaced by a fresh machine that
     satisfies the invariant; anything else is case-split *)
-Ltac adv1 :=
+Ltac adv_gen ptac :=
   first
   [ flag_read
   | inner_scrut ltac:(fun x =>
     lazymatch type of x with
+    | (machine * outcome)%type => ptac x
+    | option machine =>
+      lazymatch x with
+      | weak_clone ?w ?m0 =>
+        let E := fresh "E" in let Hm := fresh "Hm" in let m' := fresh "m" in
+        eassert (Hm : inv _ _ m0) by fl;
+        destruct x as [m'|] eqn:E;
+        [ eassert (inv _ _ m') by (eapply inv_weak_clone; [exact Hm|exact E]) | ]
+      end
     | (machine * _)%type =>
         let Hr := fresh "Hr" in let m1 := fresh "m" in let y1 := fresh "y" in
         eassert (Hr : inv _ _ x.1) by fl;
@@ -110,88 +126,97 @@ Ltac adv1 :=
     | _ => destruct x eqn:?
     end) ]; cbv beta iota zeta; cbn [andb negb]; fix_flags.
 
-Ltac go := cbv beta iota zeta; cbn [andb negb]; fix_flags; repeat adv1; cbn [fst]; fl.
+(** an activation result: split on the outcome; out of fuel means nothing is known about the
+    flags *)
+Ltac res_pair x :=
+  let Hr := fresh "Hr" in let m1 := fresh "m" in let r1 := fresh "r" in
+  eassert (Hr : res _ _ x) by fl;
+  destruct x as [m1 r1]; destruct r1;
+  [ apply res_elim in Hr; [|discriminate]
+  | apply res_elim in Hr; [|discriminate]
+  | apply res_elim in Hr; [|discriminate]
+  | apply res_elim_fuel in Hr ].
+
+Ltac adv1 := adv_gen res_pair.
+
+Ltac go := cbv beta iota zeta; cbn [andb negb]; fix_flags; repeat adv1; fl.
 
 Section Steps.
   Context (K : conf) (P : prog).
   Context (rec : call -> machine -> machine * outcome).
   Context (Hrec : rec_ok (Pre K) (Post K) rec).
   Implicit Types (m : machine) (c f d p : bool).
+  Notation A := (flagsA K).
 
-  Lemma rec_gen k m t : gen k = true -> inv K t m -> tq K t -> inv K t (rec k m).1.
+  Lemma rec_gen k m t : gen k = true -> inv A t m -> tq K t -> res A t (rec k m).
   Proof.
     intros Hg H Hq. pose proof (Hrec k m) as HH. unfold Pre, Post in HH.
     destruct H as [<- Hl].
     assert (Ht : target k m = ctl m) by (destruct k; try discriminate; reflexivity).
-    rewrite Ht in HH. apply HH. split; [exact Hl|].
+    rewrite Ht in HH. apply res_eta, HH. split; [exact Hl|].
     destruct k; try discriminate; cbn; auto.
   Qed.
   Lemma rec_collect f d p m :
-    inv K (false, f, d, p) m -> inv K (false, f, d, p) (rec KCollect m).1.
+    inv A (false, f, d, p) m -> res A (false, f, d, p) (rec KCollect m).
   Proof.
     intros H. pose proof (Hrec KCollect m) as HH. unfold Pre, Post in HH. cbn in HH.
-    rewrite (inv_ctl _ _ _ H) in HH. apply HH. split; [eapply inv_log, H|]. eapply inv_c, H.
+    rewrite (inv_ctl _ _ _ H) in HH. apply res_eta, HH. split; [exact (inv_log _ _ _ H)|]. eapply inv_c, H.
   Qed.
   Lemma rec_loop n f d p m :
-    inv K (true, f, d, p) m -> inv K (true, f, d, p) (rec (KCollectLoop n) m).1.
+    inv A (true, f, d, p) m -> res A (true, f, d, p) (rec (KCollectLoop n) m).
   Proof.
     intros H. pose proof (Hrec (KCollectLoop n) m) as HH. unfold Pre, Post in HH. cbn in HH.
-    rewrite (inv_ctl _ _ _ H) in HH. apply HH. split; [eapply inv_log, H|]. eapply inv_c, H.
+    rewrite (inv_ctl _ _ _ H) in HH. apply res_eta, HH. split; [exact (inv_log _ _ _ H)|]. eapply inv_c, H.
   Qed.
   Lemma rec_once f d p m :
-    inv K (true, f, d, p) m -> inv K (true, f, d, p) (rec KCollectOnce m).1.
+    inv A (true, f, d, p) m -> res A (true, f, d, p) (rec KCollectOnce m).
   Proof.
     intros H. pose proof (Hrec KCollectOnce m) as HH. unfold Pre, Post in HH. cbn in HH.
-    rewrite (inv_ctl _ _ _ H) in HH. apply HH. split; [eapply inv_log, H|]. eapply inv_c, H.
+    rewrite (inv_ctl _ _ _ H) in HH. apply res_eta, HH. split; [exact (inv_log _ _ _ H)|]. eapply inv_c, H.
   Qed.
   Lemma rec_finlist L rest any old_f c d p m :
-    inv K (c, true, d, p) m -> tq K (c, true, d, p) ->
-    inv K (c, old_f, d, p) (rec (KFinalizeList L rest any old_f) m).1.
+    inv A (c, true, d, p) m -> tq K (c, true, d, p) ->
+    res A (c, old_f, d, p) (rec (KFinalizeList L rest any old_f) m).
   Proof.
     intros H Hq. pose proof (Hrec (KFinalizeList L rest any old_f) m) as HH.
     unfold Pre, Post in HH. cbn in HH.
     rewrite (inv_c _ _ _ _ _ _ H), (inv_d _ _ _ _ _ _ H), (inv_p _ _ _ _ _ _ H) in HH.
-    apply HH. split; [eapply inv_log, H|]. split; [eapply inv_quiet; eauto | eapply inv_f, H].
+    apply res_eta, HH. split; [exact (inv_log _ _ _ H)|].
+    split; [eapply inv_quiet; eauto | eapply inv_f, H].
   Qed.
   Lemma rec_droplist L rest old_d c f p m :
-    inv K (c, f, true, p) m ->
-    inv K (c, f, old_d, p) (rec (KDropList L rest old_d) m).1.
+    inv A (c, f, true, p) m ->
+    res A (c, f, old_d, p) (rec (KDropList L rest old_d) m).
   Proof.
     intros H. pose proof (Hrec (KDropList L rest old_d) m) as HH.
     unfold Pre, Post in HH. cbn in HH.
     rewrite (inv_c _ _ _ _ _ _ H), (inv_f _ _ _ _ _ _ H), (inv_p _ _ _ _ _ _ H) in HH.
-    apply HH. split; [eapply inv_log, H|]. eapply inv_d, H.
+    apply res_eta, HH. split; [exact (inv_log _ _ _ H)|]. eapply inv_d, H.
   Qed.
 
   (** callback entries other than [trace]: logged while [is_tracing()] is false *)
   Lemma inv_emit_cb k o c f d p m :
-    inv K (c, f, d, p) m -> tq K (c, f, d, p) ->
+    inv A (c, f, d, p) m -> tq K (c, f, d, p) ->
     match k with KTrace => False | KFin => f = true | _ => True end ->
-    inv K (c, f, d, p) (emit (ECb k o (cur_flags K m)) m).
+    inv A (c, f, d, p) (emit (ECb k o (cur_flags K m)) m).
   Proof.
     intros H Hq Hk. apply inv_emit; [|exact H]. unfold cur_flags.
     rewrite (inv_c _ _ _ _ _ _ H), (inv_f _ _ _ _ _ _ H), (inv_d _ _ _ _ _ _ H).
     cbn in Hq. cbn. rewrite Hq. split; [reflexivity|]. destruct k; auto; contradiction.
   Qed.
 
-  Local Hint Extern 2 (inv _ _ (fst (rec _ _))) =>
-    (eapply rec_gen; [reflexivity | | ]) : fl.
-  Local Hint Extern 2 (inv _ _ (fst (rec KCollect _))) =>
-    (eapply rec_collect) : fl.
-  Local Hint Extern 2 (inv _ _ (fst (rec (KCollectLoop _) _))) =>
-    (eapply rec_loop) : fl.
-  Local Hint Extern 2 (inv _ _ (fst (rec KCollectOnce _))) =>
-    (eapply rec_once) : fl.
-  Local Hint Extern 2 (inv _ _ (fst (rec (KFinalizeList _ _ _ _) _))) =>
-    (eapply rec_finlist) : fl.
-  Local Hint Extern 2 (inv _ _ (fst (rec (KDropList _ _ _) _))) =>
-    (eapply rec_droplist) : fl.
+  Local Hint Extern 2 (res _ _ (rec _ _)) => (eapply rec_gen; [reflexivity | | ]) : fl.
+  Local Hint Extern 2 (res _ _ (rec KCollect _)) => (eapply rec_collect) : fl.
+  Local Hint Extern 2 (res _ _ (rec (KCollectLoop _) _)) => (eapply rec_loop) : fl.
+  Local Hint Extern 2 (res _ _ (rec KCollectOnce _)) => (eapply rec_once) : fl.
+  Local Hint Extern 2 (res _ _ (rec (KFinalizeList _ _ _ _) _)) => (eapply rec_finlist) : fl.
+  Local Hint Extern 2 (res _ _ (rec (KDropList _ _ _) _)) => (eapply rec_droplist) : fl.
   Local Hint Extern 1 (inv _ _ (emit (ECb _ _ (cur_flags _ _)) _)) =>
     (apply inv_emit_cb; [ | | first [exact I | reflexivity]]) : fl.
 
   (** an activation that runs at script level *)
   Definition gen_ok (X : machine -> machine * outcome) : Prop :=
-    forall c f d p m, inv K (c, f, d, p) m -> tq K (c, f, d, p) -> inv K (c, f, d, p) (X m).1.
+    forall c f d p m, inv A (c, f, d, p) m -> tq K (c, f, d, p) -> res A (c, f, d, p) (X m).
 
   Lemma f_step_script self cs : gen_ok (step_script rec self cs).
   Proof. intros c f d p m H Hq. unfold step_script. go. Qed.
@@ -218,53 +243,54 @@ Section Steps.
 
   (** the two collection entry points need no hypothesis on the flags *)
   Lemma f_step_trigger c f d p m :
-    inv K (c, f, d, p) m -> inv K (c, f, d, p) (step_trigger K rec m).1.
+    inv A (c, f, d, p) m -> res A (c, f, d, p) (step_trigger K rec m).
   Proof.
-    intros H. unfold step_trigger. destruct (st_collecting m) eqn:Ec; [exact H|].
+    intros H. unfold step_trigger. destruct (st_collecting m) eqn:Ec; [fl|].
     rewrite (inv_c _ _ _ _ _ _ H) in Ec. subst c. go.
   Qed.
   Lemma f_step_collect_cycles c f d p m :
-    inv K (c, f, d, p) m -> inv K (c, f, d, p) (step_collect_cycles K rec m).1.
+    inv A (c, f, d, p) m -> res A (c, f, d, p) (step_collect_cycles K rec m).
   Proof.
-    intros H. unfold step_collect_cycles. destruct (st_collecting m) eqn:Ec; [exact H|].
+    intros H. unfold step_collect_cycles. destruct (st_collecting m) eqn:Ec; [fl|].
     rewrite (inv_c _ _ _ _ _ _ H) in Ec. subst c. go.
   Qed.
   Lemma f_step_collect f d p m :
-    inv K (false, f, d, p) m -> inv K (false, f, d, p) (step_collect K rec m).1.
+    inv A (false, f, d, p) m -> res A (false, f, d, p) (step_collect K rec m).
   Proof. intros H. unfold step_collect. go. Qed.
   Lemma f_step_collect_loop k f d p m :
-    inv K (true, f, d, p) m -> inv K (true, f, d, p) (step_collect_loop rec k m).1.
+    inv A (true, f, d, p) m -> res A (true, f, d, p) (step_collect_loop rec k m).
   Proof. intros H. unfold step_collect_loop. go. Qed.
 
   (** [__collect]: the tracing phases run with finalizing/dropping cleared; both are restored
       before anything else happens, also when tracing unwinds *)
   Lemma f_step_collect_once f d p m :
-    inv K (true, f, d, p) m -> inv K (true, f, d, p) (step_collect_once K P rec m).1.
+    inv A (true, f, d, p) m -> res A (true, f, d, p) (step_collect_once K P rec m).
   Proof.
     intros H. unfold step_collect_once.
-    assert (H0 : inv K (true, false, false, p)
+    assert (H0 : inv A (true, false, false, p)
                    (m <| st_finalizing := false |> <| st_dropping := false |>)) by fl.
-    pose proof (inv_trace_pass K P p _ H0) as H1.
+    pose proof (inv_trace_pass K P A (true, false, false, p)
+                  (fun o m => ev_ok_trace K p m o) _ H0) as H1.
     destruct (trace_pass K P (m <| st_finalizing := false |> <| st_dropping := false |>))
       as [m1 pr]. cbn [fst] in H1. cbv beta iota zeta.
-    assert (H2 : inv K (true, f, d, p)
+    assert (H2 : inv A (true, f, d, p)
                    (m1 <| st_finalizing := st_finalizing m |> <| st_dropping := st_dropping m |>))
       by fl.
     set (m2 := m1 <| st_finalizing := st_finalizing m |> <| st_dropping := st_dropping m |>) in *.
     clearbody m2. fix_flags.
-    destruct pr as [L| |]; [|cbn [fst]; fl..].
-    destruct L as [|g L]; [cbn [fst]; fl|].
+    destruct pr as [L| |]; [|fl..].
+    destruct L as [|g L]; [fl|].
     destruct (k_fin K) eqn:Ek; fl.
   Qed.
 
   Lemma f_step_finalize_list L rest any old_f c d p m :
-    inv K (c, true, d, p) m -> tq K (c, true, d, p) ->
-    inv K (c, old_f, d, p) (step_finalize_list K P rec L rest any old_f m).1.
+    inv A (c, true, d, p) m -> tq K (c, true, d, p) ->
+    res A (c, old_f, d, p) (step_finalize_list K P rec L rest any old_f m).
   Proof. intros H Hq. unfold step_finalize_list. go. Qed.
 
   Lemma f_step_drop_list L rest old_d c f p m :
-    inv K (c, f, true, p) m ->
-    inv K (c, f, old_d, p) (step_drop_list K rec L rest old_d m).1.
+    inv A (c, f, true, p) m ->
+    res A (c, f, old_d, p) (step_drop_list K rec L rest old_d m).
   Proof. intros H. unfold step_drop_list. go. Qed.
 
   (** *** commands *)
@@ -286,19 +312,6 @@ Section Steps.
   Proof. intros c f d p m H Hq. unfold cmd_upgrade. go. Qed.
   Lemma f_cmd_w_new self w : gen_ok (cmd_w_new K self w).
   Proof. intros c f d p m H Hq. unfold cmd_w_new. go. Qed.
-  Lemma f_cmd_w_clone self src dst : gen_ok (cmd_w_clone K self src dst).
-  Proof.
-    intros c f d p m H Hq. unfold cmd_w_clone. cbv beta iota zeta. cbn [andb negb].
-    repeat first
-      [ match goal with
-        | |- context [match weak_clone ?w ?m0 with _ => _ end] =>
-          let E := fresh "E" in
-          destruct (weak_clone w m0) as [m'|] eqn:E;
-          [ eassert (inv _ _ m') by (eapply inv_weak_clone; [|exact E]; fl) | ]
-        end
-      | adv1 ];
-    cbn [fst]; fl.
-  Qed.
   Lemma f_cmd_w_drop self w : gen_ok (cmd_w_drop K self w).
   Proof. intros c f d p m H Hq. unfold cmd_w_drop. go. Qed.
   Lemma f_cmd_try_unwrap self l v : gen_ok (cmd_try_unwrap K self l v).
@@ -307,35 +320,12 @@ Section Steps.
   Proof. intros c f d p m H Hq. unfold cmd_drop_value. go. Qed.
   Lemma f_cmd_fin_again self l : gen_ok (cmd_fin_again K self l).
   Proof. intros c f d p m H Hq. unfold cmd_fin_again. go. Qed.
-  Lemma f_cmd_new_cyclic self dst cls script sw : gen_ok (cmd_new_cyclic K P rec self dst cls script sw).
-  Proof.
-    intros c f d p m H Hq. unfold cmd_new_cyclic. cbv beta iota zeta. cbn [andb negb].
-    repeat first
-      [ match goal with
-        | |- context [match weak_clone ?w ?m0 with _ => _ end] =>
-          let E := fresh "E" in let Hm := fresh "Hm" in
-          eassert (Hm : inv _ _ m0) by fl;
-          destruct (weak_clone w m0) as [m'|] eqn:E;
-          [ eassert (inv _ _ m') by (eapply inv_weak_clone; [exact Hm|exact E]) | ]
-        end
-      | adv1 ];
-    cbn [fst]; fl.
-  Qed.
   Lemma f_cmd_register self nd script cs : gen_ok (cmd_register K P rec self nd script cs).
   Proof. intros c f d p m H Hq. unfold cmd_register. go. Qed.
   Lemma f_cmd_clean self cs : gen_ok (cmd_clean K rec self cs).
   Proof. intros c f d p m H Hq. unfold cmd_clean. go. Qed.
   Lemma f_cmd_c_drop self cs : gen_ok (cmd_c_drop K self cs).
   Proof. intros c f d p m H Hq. unfold cmd_c_drop. go. Qed.
-  Lemma f_cmd_bag self l k : gen_ok (cmd_bag self l k).
-  Proof.
-    intros c f d p m H Hq. unfold cmd_bag. cbv beta iota zeta. adv1.
-    destruct (y ≫= λ r, read_loc r m0) as [o|]; [|cbn [fst]; fl].
-    generalize (N.to_nat k). intros n. revert m0 Hr.
-    induction n as [|n IH]; intros m0 Hr; [cbn [fst]; fl|].
-    destruct (inc_rc (hdr_of m0 o)) as [h|]; [|cbn [fst]; fl].
-    apply IH. fl.
-  Qed.
   Lemma f_cmd_unbag self k : gen_ok (cmd_unbag rec self k).
   Proof. intros c f d p m H Hq. unfold cmd_unbag. go. Qed.
   Lemma f_cmd_borrow self nd : gen_ok (cmd_borrow self nd).
@@ -356,11 +346,25 @@ Section Steps.
   Proof. intros c f d p m H Hq. unfold cmd_obs. go. Qed.
   Lemma f_cmd_w_obs self w : gen_ok (cmd_w_obs K self w).
   Proof. intros c f d p m H Hq. unfold cmd_w_obs. go. Qed.
+  Lemma f_cmd_w_clone self src dst : gen_ok (cmd_w_clone K self src dst).
+  Proof. intros c f d p m H Hq. unfold cmd_w_clone. go. Qed.
+  Lemma f_cmd_new_cyclic self dst cls script sw : gen_ok (cmd_new_cyclic K P rec self dst cls script sw).
+  Proof. intros c f d p m H Hq. unfold cmd_new_cyclic. go. Qed.
+  Lemma f_cmd_bag self l k : gen_ok (cmd_bag self l k).
+  Proof.
+    intros c f d p m H Hq. unfold cmd_bag. cbv beta iota zeta. adv1.
+    destruct (y ≫= λ r, read_loc r m0) as [o|]; [|fl].
+    generalize (N.to_nat k). intros n. revert m0 Hr.
+    induction n as [|n IH]; intros m0 Hr; [fl|].
+    destruct (inc_rc (hdr_of m0 o)) as [h|]; [|fl].
+    apply IH. fl.
+  Qed.
   (** [sobs] samples [is_tracing()]: false at script level *)
   Lemma f_cmd_s_obs self : gen_ok (cmd_s_obs K self).
   Proof.
-    intros c f d p m H Hq. unfold cmd_s_obs. apply inv_ok, inv_emit; [|exact H].
-    unfold cur_flags. cbn [fl_t ev_ok].
+    intros c f d p m H Hq. unfold cmd_s_obs, ok. apply res_intro, inv_emit_benign; [exact I|].
+    apply inv_emit; [|exact H].
+    unfold cur_flags. cbn [fl_t ev_ok flagsA lp_ev].
     rewrite (inv_c _ _ _ _ _ _ H), (inv_f _ _ _ _ _ _ H), (inv_d _ _ _ _ _ _ H). exact Hq.
   Qed.
 
@@ -403,48 +407,41 @@ Section Steps.
     gen_ok X -> target k m = ctl m -> log_ok K (log m) -> quiet K m ->
     Post K k m (X m).1 (X m).2.
   Proof.
-    intros HX Ht Hl Hq. unfold Post. rewrite Ht. unfold ctl.
+    intros HX Ht Hl Hq. unfold Post. rewrite Ht. unfold ctl. rewrite <- surjective_pairing.
     apply HX; [split; [reflexivity | exact Hl] | exact Hq].
   Qed.
 
   (** the step case of [run_ind] *)
   Lemma flags_step_ok : rec_ok (Pre K) (Post K) (step K P rec).
   Proof.
-    intros k m [Hl Hc]. destruct k; cbn [step]; cbn [cond] in Hc.
-    - apply gen_ok_post; auto using f_step_cmd.
-    - apply gen_ok_post; auto using f_step_script.
-    - apply gen_ok_post; auto using f_step_store.
-    - apply gen_ok_post; auto using f_step_drop_cc.
-    - apply gen_ok_post; auto using f_step_drop_value.
-    - apply gen_ok_post; auto using f_step_drop_fields.
-    - apply gen_ok_post; auto using f_step_drop_map_slots.
-    - unfold Post, target, ctl. apply f_step_trigger. split; [reflexivity | exact Hl].
-    - unfold Post, target, ctl. apply f_step_collect_cycles. split; [reflexivity | exact Hl].
-    - unfold Post, target, ctl. rewrite Hc. apply f_step_collect.
-      split; [unfold ctl; rewrite Hc; reflexivity | exact Hl].
-    - unfold Post, target, ctl. rewrite Hc. apply f_step_collect_loop.
-      split; [unfold ctl; rewrite Hc; reflexivity | exact Hl].
-    - unfold Post, target, ctl. rewrite Hc. apply f_step_collect_once.
-      split; [unfold ctl; rewrite Hc; reflexivity | exact Hl].
-    - destruct Hc as [Hq Hf]. unfold Post, target.
-      apply f_step_finalize_list.
-      + split; [unfold ctl; rewrite Hf; reflexivity | exact Hl].
+    intros k m [Hl Hc]. unfold Post. rewrite <- surjective_pairing.
+    destruct k; cbn [step]; cbn [cond] in Hc.
+    - apply f_step_cmd; [apply inv_self, Hl | exact Hc].
+    - apply f_step_script; [apply inv_self, Hl | exact Hc].
+    - apply f_step_store; [apply inv_self, Hl | exact Hc].
+    - apply f_step_drop_cc; [apply inv_self, Hl | exact Hc].
+    - apply f_step_drop_value; [apply inv_self, Hl | exact Hc].
+    - apply f_step_drop_fields; [apply inv_self, Hl | exact Hc].
+    - apply f_step_drop_map_slots; [apply inv_self, Hl | exact Hc].
+    - apply f_step_trigger, inv_self, Hl.
+    - apply f_step_collect_cycles, inv_self, Hl.
+    - unfold target, ctl. rewrite Hc. apply f_step_collect. rewrite <- Hc. apply inv_self, Hl.
+    - unfold target, ctl. rewrite Hc. apply f_step_collect_loop. rewrite <- Hc. apply inv_self, Hl.
+    - unfold target, ctl. rewrite Hc. apply f_step_collect_once. rewrite <- Hc. apply inv_self, Hl.
+    - destruct Hc as [Hq Hf]. unfold target. apply f_step_finalize_list.
+      + rewrite <- Hf. apply inv_self, Hl.
       + unfold quiet in Hq. rewrite Hf in Hq. exact Hq.
-    - unfold Post, target. apply f_step_drop_list.
-      split; [unfold ctl; rewrite Hc; reflexivity | exact Hl].
-    - apply gen_ok_post; auto using f_step_unbag.
-    - apply gen_ok_post; auto using f_step_clean_run.
+    - unfold target. apply f_step_drop_list. rewrite <- Hc. apply inv_self, Hl.
+    - apply f_step_unbag; [apply inv_self, Hl | exact Hc].
+    - apply f_step_clean_run; [apply inv_self, Hl | exact Hc].
   Qed.
 End Steps.
 
-(** ** Theorem 1: every activation restores the flags exactly and keeps the log [log_ok],
-    whatever its outcome (normal return, panic, abort, out of fuel). *)
+(** ** Theorem 1: every activation that does not run out of fuel restores the flags exactly,
+    whatever its outcome (normal return, panic, abort), and the log stays [log_ok]. *)
 Theorem run_flags K P n : rec_ok (Pre K) (Post K) (run K P n).
 Proof.
   apply run_ind.
   - intros rec Hrec. apply flags_step_ok. exact Hrec.
-  - intros k m [Hl Hc]. unfold Post. destruct k; cbn [target]; cbn [cond] in Hc;
-      try (apply inv_self; exact Hl).
-    + destruct Hc as [_ Hf]. split; [unfold ctl; rewrite Hf; reflexivity | exact Hl].
-    + split; [unfold ctl; rewrite Hc; reflexivity | exact Hl].
+  - intros k m [Hl Hc]. unfold Post. eapply res_intro_fuel, inv_self, Hl.
 Qed.
